@@ -38,6 +38,11 @@ chk("C08", "fault_enumeration",
     "Process-death crash model at durable-write granularity; torn LevelDB batches / power-loss reordering are the store's contract.",
     "exhaustive crash-point enumeration via write hooks + directory snapshots, recovery compared with never-crashed twin", "§5 C08")
 
+chk("C09", "model_checking",
+    "Bounded-exhaustive enumeration of an input grammar against the real application at two states, through CheckTx and DeliverTx (mid-block) and Query: all byte strings of length <= 2; every prefix, single-bit flip and 00/7f/80/ff substitution of valid encodings of 10 base transactions; re-signed envelopes with every single and every ordered pair of ~90 hostile field values; a 12x11x8 Query grid incl. vm_call under the production RPC environment. Oracle: every call returns (recovered panic or dead worker = violation) and a following well-formed transfer and block succeed.",
+    "The claim is the enumerated grammar, not all byte strings; balances bounded by the harness genesis.",
+    "bounded-exhaustive input-grammar enumeration on the real app, no-panic + liveness oracle", "§5 C09")
+
 ALL = ["C%02d" % i for i in range(1, 21)]
 PENDING_REASON = "check under construction in this round (model-checking harness not yet registered); see DESIGN.md §5"
 
